@@ -1116,7 +1116,10 @@ private theorem run_frame (C : Codecs) (j : Bool) (tail : List Op) :
     simp only [run]
     rw [ih _ (fun o' ho' => h o' (List.mem_cons_of_mem _ ho')), message_ops_isolated C s o j (h o List.mem_cons_self)]
 
-/-- **C31 (get_content never writes).** `get_content` changes no message at all (only, possibly, the cache). -/
+/-- **C31 (get_content never writes).** `get_content` changes no message at all (only, possibly, the cache).
+    NOTE: this holds by the SHAPE of the model (`stepWith` of `.getContent` returns `{ s with cache := c' }`, proof `rfl`);
+    it says something about mitmproxy only through the tie: both message states are compared with the real objects
+    after every op, `get` ops included. -/
 theorem get_content_pure_on_message (C : Codecs) (s : State) (i st : Bool) :
     (step C s (.getContent i st)).1.m0 = s.m0 ∧ (step C s (.getContent i st)).1.m1 = s.m1 := ⟨rfl, rfl⟩
 
@@ -1869,7 +1872,11 @@ private theorem need_core (s : State) (op : Op) : need s.core op = need s op := 
 /-- **C31 (trailers and HTTP version are irrelevant).** For every op, in every state: running it on the state with all
     trailers / versions blanked gives the same result, the same cache and — up to those two fields — the same
     messages.  Nothing in set_content / get_content / Message.decode / Message.encode (in particular not the
-    Content-Length rule) reads a message's trailers or version. -/
+    Content-Length rule) reads a message's trailers or version.
+    NOTE: true because no MODEL function reads `tr` / `ver` — a fact about the model's shape.  Its meaning for mitmproxy
+    comes from the tie: the rendered message state includes trailers and version, and results + states are compared
+    after every op on messages with every trailers / version value (seed c31-5, which made set_content read the
+    trailers, breaks that comparison and the Content-Length oracle clause). -/
 theorem trailers_irrelevant (C : Codecs) (s : State) (op : Op) :
     (step C s.core op).2 = (step C s op).2 ∧ (step C s.core op).1.core = (step C s op).1.core := by
   have hf : freshOf C s.core op = freshOf C s op := by simp only [freshOf, need_core]
@@ -1902,7 +1909,8 @@ theorem trailers_irrelevant (C : Codecs) (s : State) (op : Op) :
   | setTr i t => refine ⟨rfl, ?_⟩; simp only [step, stepWith, core_setMsg, core_msg]; rfl
   | setVer i w => refine ⟨rfl, ?_⟩; simp only [step, stepWith, core_setMsg, core_msg]; rfl
 
-/-- … lifted to whole histories: results never depend on trailers / version, of either message, at any point -/
+/-- … lifted to whole histories: results never depend on trailers / version, of either message, at any point
+    (same caveat: a statement about the model's shape, given meaning by the tie) -/
 theorem trailers_irrelevant_history (C : Codecs) (ops : List Op) :
     ∀ s t : State, s.core = t.core → (run C s ops).2 = (run C t ops).2 ∧ (run C s ops).1.core = (run C t ops).1.core := by
   induction ops with
@@ -2451,5 +2459,168 @@ example : (step toy (run toy init [.dec [2, 7] brN strictB]).1 (.enc [7] brN str
       (.enc [7] brN strictB)).2 = .ok [1, 7] := by decide
 -- own_deflate_fallback / Lib: a body for which only raw inflation succeeds exists in the toy library
 example : toyLib.decompress [0x64] [2, 7] = none ∧ toyLib.inflateRaw [2, 7] = some [7] ∧ ([2, 7] : Bytes) ≠ [] := by decide
+
+/-! ## round 6 (owner fixes after the cross-audit): sentence 5 at byte level for encode results and stored raw bodies
+
+  "No result ever depends on which bodies were encoded or decoded earlier" is proved at full strength for
+  `encoding.decode` (`decode_transparent`) and `get_content` (`get_content_transparent`).  For `encoding.encode` results
+  and for the raw body an assignment stores, the byte-level reading (`EncodeHistoryIndependent`,
+  `StoredRawHistoryIndependent`) is FALSE — by design of the cache, which returns the peer's original bytes when the
+  content is re-encoded unchanged — and is proved only UP TO MEANING (what the bytes decode to), plus byte-wise
+  outside cache hits on non-canonical entries. -/
+
+/-- **proved part of `EncodeHistoryIndependent`: equal up to what the bytes decode to.**  (This is
+    `encode_semantically_transparent`, restated under the name the clause table uses: a compressed coding always
+    encodes, and whatever `encoding.encode(d, coding, errors)` returns under an identity / compressed coding decodes
+    (uncached) back to `d` — in every reachable state, i.e. independently of the history.) -/
+theorem encode_history_independent_partial (C : Codecs) (s0 : State) (h0 : s0.cache = none) (ops : List Op)
+    (d coding errors : Bytes) :
+    (kindOf (asciiLower coding) = .cached →
+      ∃ x, (step C (run C s0 ops).1 (.enc d coding errors)).2 = .ok x) ∧
+    (kindOf (asciiLower coding) = .identity ∨ kindOf (asciiLower coding) = .cached →
+      ∀ x, (step C (run C s0 ops).1 (.enc d coding errors)).2 = .ok x → uncachedDec C coding errors x = .ok d) :=
+  encode_semantically_transparent C s0 h0 ops d coding errors
+
+/-- under the invariant, outside a non-canonical hit, `encoding.encode` computes exactly the uncached result -/
+private theorem encodeStep_canon {C : Codecs} {c : Cache} (hi : Inv C c) (d coding er : Bytes) (f : Res)
+    (hf : identityEnc.contains (asciiLower coding) = false → f = C.enc (asciiLower coding) er d)
+    (hg : nonCanonicalHit C c d (asciiLower coding) er = false) :
+    (encodeStep c d coding er f).1 = uncachedEnc C coding er d := by
+  unfold encodeStep uncachedEnc
+  dsimp only
+  cases h : encHit c d (asciiLower coding) er with
+  | some x =>
+    obtain ⟨e, hc, _, hn, _, _⟩ := encHit_some h
+    have hk := (hi e hc).1
+    rw [hn] at hk
+    have hid := not_identity_contains (n := asciiLower coding) (by rw [hk]; decide)
+    have hx : C.enc (asciiLower coding) er d = .ok x := by simpa [nonCanonicalHit, h] using hg
+    simp only [hid, Bool.false_eq_true, if_false, hx]
+  | none =>
+    cases hid : identityEnc.contains (asciiLower coding)
+    · simp [hf hid]
+    · simp
+
+/-- **byte-level, state guard: outside a cache hit on a non-canonical entry `encoding.encode` is history independent.**
+    In every reachable state: unless the call is a cache hit whose entry does not hold the uncached encoder's bytes
+    (`nonCanonicalHit`, decidable — such entries are only made by decoding a differently compressed / lenient body),
+    the result is byte-for-byte what a process without history returns. -/
+theorem encode_bytes_history_independent_partial_hit (C : Codecs) (s0 : State) (h0 : s0.cache = none) (ops : List Op)
+    (d coding errors : Bytes)
+    (hg : nonCanonicalHit C (run C s0 ops).1.cache d (asciiLower coding) errors = false) :
+    (step C (run C s0 ops).1 (.enc d coding errors)).2 = uncachedEnc C coding errors d := by
+  have hi := run_inv C s0 h0 ops
+  generalize (run C s0 ops).1 = s at hi hg
+  have := encodeStep_canon hi d coding errors (freshOf C s (.enc d coding errors))
+    (by intro h; simp [freshOf, need, needEnc_of errors d h]) hg
+  simpa [step, stepWith] using this
+
+/-- every entry holds the bytes the uncached encoder produces -/
+private def InvCanon (C : Codecs) (c : Cache) : Prop :=
+  ∀ e, c = some e → kindOf e.coding = .cached ∧ C.enc e.coding e.errors e.decoded = .ok e.encoded
+
+private theorem run_invCanon (C : Codecs) (ops : List Op) :
+    ∀ s, InvCanon C s.cache → canonHist C s ops = true → InvCanon C (run C s ops).1.cache := by
+  induction ops with
+  | nil => intro s h _; exact h
+  | cons op ops ih =>
+    intro s h hg
+    simp only [canonHist, Bool.and_eq_true] at hg
+    simp only [run]
+    refine ih _ ?_ hg.2
+    apply step_pres C (fun e => kindOf e.coding = .cached ∧ C.enc e.coding e.errors e.decoded = .ok e.encoded) s op h
+    · intro n e x d hn hdec hc
+      have hk := (kind_cached_iff n).mpr hc
+      refine ⟨hk, ?_⟩
+      simpa [canonOp, hn, hk, hdec] using hg.1
+    · intro n e d x _ henc hc
+      exact ⟨(kind_cached_iff n).mpr hc, henc⟩
+
+/-- **byte-level, history guard: histories that only ever decoded canonical bodies.**  If every successful decode of a
+    compressed coding in the history was of exactly the bytes the encoder emits for that content (`canonHist`,
+    decidable), `encoding.encode` returns byte-for-byte the uncached result. -/
+theorem encode_bytes_history_independent_partial (C : Codecs) (s0 : State) (h0 : s0.cache = none) (ops : List Op)
+    (d coding errors : Bytes) (hg : canonHist C s0 ops = true) :
+    (step C (run C s0 ops).1 (.enc d coding errors)).2 = uncachedEnc C coding errors d := by
+  apply encode_bytes_history_independent_partial_hit C s0 h0 ops
+  have hr : InvCanon C (run C s0 ops).1.cache :=
+    run_invCanon C ops s0 (by intro e he; rw [h0] at he; cases he) hg
+  unfold nonCanonicalHit
+  cases hh : encHit (run C s0 ops).1.cache d (asciiLower coding) errors with
+  | none => rfl
+  | some x =>
+    obtain ⟨e, hc, hd, hn, he, hx⟩ := encHit_some hh
+    obtain ⟨_, henc⟩ := hr e hc
+    rw [hn, he, hd, hx] at henc
+    simp [henc]
+
+/-- **`EncodeHistoryIndependent` is FALSE (by design of the cache).**  Toy codecs: after `decode([2,7], "br")` (a
+    non-canonical stream of `[7]`), `encode([7], "br")` returns `[2,7]`; a process without history returns `[1,7]`. -/
+theorem encode_history_independent_counterexample : ¬ EncodeHistoryIndependent toy := by
+  intro h
+  have := h init [.dec [2, 7] brN strictB] [7] brN strictB rfl
+  revert this
+  decide
+
+private theorem setContent_raw_of_res {c c' : Cache} (m : Msg) (v : Bytes) (f : Res)
+    (h : (encodeStep c v (ceOrIdentity m.ce) strictB f).1 = (encodeStep c' v (ceOrIdentity m.ce) strictB f).1) :
+    (setContent c m (some v) f).2.2.raw = (setContent c' m (some v) f).2.2.raw := by
+  unfold setContent
+  simp only
+  generalize encodeStep c v (ceOrIdentity m.ce) strictB f = p at h
+  generalize encodeStep c' v (ceOrIdentity m.ce) strictB f = q at h
+  obtain ⟨r, c1⟩ := p
+  obtain ⟨r', c2⟩ := q
+  simp only at h
+  subst h
+  cases r <;> simp [fixLen_raw]
+
+/-- **byte-level, state guard, for the raw body stored by `set_content`**: unless the assignment is a cache hit on a
+    non-canonical entry, the stored raw body is byte-for-byte the one the same assignment stores on the same message
+    state with an EMPTY cache. -/
+theorem stored_raw_history_independent_partial_hit (C : Codecs) (s0 : State) (h0 : s0.cache = none) (ops : List Op)
+    (i : Bool) (v : Bytes)
+    (hg : nonCanonicalHit C (run C s0 ops).1.cache v (effName (((run C s0 ops).1.msg i).ce)) strictB = false) :
+    ((step C (run C s0 ops).1 (.setContent i (some v))).1.msg i).raw =
+    ((step C { (run C s0 ops).1 with cache := none } (.setContent i (some v))).1.msg i).raw := by
+  have hi := run_inv C s0 h0 ops
+  generalize (run C s0 ops).1 = s at hi hg
+  have hfresh : freshOf C ({ s with cache := none } : State) (.setContent i (some v)) = freshOf C s (.setContent i (some v)) := by
+    simp only [freshOf, need, withCache_msg]
+  rw [step_set, step_set, setMsg_msg, setMsg_msg, hfresh, withCache_msg]
+  apply setContent_raw_of_res
+  have hf := fresh_set C s i v
+  have h1 := encodeStep_canon hi v (ceOrIdentity (s.msg i).ce) strictB (freshOf C s (.setContent i (some v))) hf hg
+  have h2 := encodeStep_canon (C := C) (c := none) (by intro e he; cases he) v (ceOrIdentity (s.msg i).ce) strictB
+    (freshOf C s (.setContent i (some v))) hf (by simp [nonCanonicalHit, encHit])
+  rw [h1, h2]
+
+/-- **`StoredRawHistoryIndependent` is FALSE (by design of the cache; F-C31a is the subclass where the kept bytes are
+    also rejected by strict decoders).**  Toy codecs: message with raw `[2,7]` under "br"; read it, assign the same
+    content `[7]`: the raw body stays `[2,7]`, with an empty cache it would be `[1,7]`. -/
+theorem stored_raw_history_independent_counterexample : ¬ StoredRawHistoryIndependent toy := by
+  intro h
+  have := (h ⟨none, ⟨some [2, 7], some brN, false, none, .absent, .h11⟩, emptyMsg⟩ [.getContent false true] false rfl).1 [7]
+  revert this
+  decide
+
+-- the guards are satisfiable and discriminate
+example : canonHist toy okState [.getContent false true, .enc [9] gzipN strictB] = true ∧
+    canonHist toy init [.dec [2, 7] brN strictB] = false ∧
+    nonCanonicalHit toy (run toy init [.dec [2, 7] brN strictB]).1.cache [7] brN strictB = true ∧
+    nonCanonicalHit toy (run toy init [.dec [1, 7] brN strictB]).1.cache [7] brN strictB = false := by decide
+-- a second library with `decompress [] = some []`: `Lib.decompress_empty` is not vacuous, and `ofLib` works over it
+example : idLib.decompress brN [] = some [] ∧ (ofLib idLib toyPy).dec brN strictB [] = .ok [] ∧
+    (ofLib idLib toyPy).dec brN strictB [4, 2] = .ok [4, 2] ∧ (ofLib idLib toyPy).ref brN [] = some [] := by decide
+
+/-- the driver-runnable forms of the guards (tied: evaluated by the driver op `guard` in the pre-state of every
+    assignment / `encoding.encode` with errors "strict" and compared with the Python classifier's facts) -/
+theorem lenientHit_eq_with (C : Codecs) (c : Cache) (v n : Bytes) :
+    lenientHit C c v n = lenientHitWith c v n (match encHit c v n strictB with | some x => C.ref n x | none => none) := by
+  unfold lenientHit lenientHitWith
+  cases encHit c v n strictB <;> rfl
+
+theorem nonCanonicalHit_eq_with (C : Codecs) (c : Cache) (d n e : Bytes) :
+    nonCanonicalHit C c d n e = nonCanonicalHitWith c d n e (C.enc n e d) := rfl
 
 end MitmVerif.Props.C31
